@@ -311,7 +311,7 @@ fn growth_factor(prog: &Program, li: usize, depth: usize) -> f64 {
 fn growth_bound(prog: &Program, len: usize) -> f64 {
     let mut used: Vec<u16> = prog.gsub.features.iter().flat_map(|f| f.lookups.iter().copied()).collect();
     for r in prog.gsub.fv.iter().flatten() {
-        used.extend(r.substs.iter().flat_map(|s| s.1.iter().copied()));
+        used.extend(r.substs.iter().flatten().flat_map(|s| s.1.iter().copied()));
     }
     used.sort_unstable();
     used.dedup();
@@ -329,7 +329,7 @@ fn restrict(prog: &Program, max_lookup: u16) -> Program {
     }
     if let Some(fv) = p.gsub.fv.as_mut() {
         for r in fv.iter_mut() {
-            for s in r.substs.iter_mut() {
+            for s in r.substs.iter_mut().flatten() {
                 s.1.retain(|&l| l <= max_lookup);
             }
         }
